@@ -41,6 +41,7 @@ def run(rep):
     la = core.lean_drv(lines)
     dis = [{'request': l[:3000], 'model': a[:1500], 'python': b[:1500]} for l, a, b in zip(lines, la, pa) if a != b]
     reqs, meta = [], []
+    n_prefix = 0
     for (cl, calls), ans in zip(hs, pa):
         if not ans.startswith('(ok'):
             continue
@@ -84,6 +85,17 @@ def run(rep):
             if any(dup_keys(z) for z in t):
                 continue
             reqs.append('deser (claims %s) %s %s %s' % (cls, *[sx.hexs(z) for z in t])); meta.append((tag, None))
+        # every prefix of a stream that contains a constrained MetaVar (five length-prefixed lists): a cut inside any of the
+        # lists, the last one included, must be reported
+        if n_prefix < (12 if quick else 150):
+            for which in range(3):
+                if 9 in bs[which] and len(bs[which]) <= 160:
+                    n_prefix += 1
+                    for cut in range(len(bs[which])):
+                        t = [list(z) for z in bs]
+                        t[which] = t[which][:cut]
+                        reqs.append('deser (claims %s) %s %s %s' % (cls, *[sx.hexs(z) for z in t])); meta.append(('truncated', None))
+                    break
     dl = core.lean_drv(reqs)
     dp = core.py_h(reqs)
     ddis = [{'request': l[:3000], 'model': a[:1500], 'python': b[:1500], 'class': m[0]}
